@@ -235,7 +235,7 @@ func c09(e *Env) {
 
 func c10(e *Env) {
 	c := e.C
-	c.Explanation = "For each of the six Encode methods the ordered list of emissions is extracted from the guarded paths (strings.Join of appended parts for the base level, strings.Builder writes for the others): each emission prints a name constant and a field whose name equals that constant, in the specification's order, preceded by the embedded level's own Encode/String on the embedded object (v3 base: CVSS:<Ver> first); v3 base and all v2 emissions are present exactly when names[N] holds, v3 temporal/environmental emissions are unconditional (X spelled out, with String() of Not Defined = \"X\" from the C20 code tables); the error result is the own-level GetError(); String() is Encode()'s text. Round trip and v2 byte identity then follow from C07/C08 (R10: vector == enc) and C09."
+	c.Explanation = "For each of the six Encode methods the ordered list of emissions is extracted from the guarded paths (strings.Join of appended parts for the base level, strings.Builder writes for the others): each emission prints a name constant and a field whose name equals that constant, in the specification's order, preceded by the embedded level's own Encode/String on the embedded object (v3 base: CVSS:<Ver> first); v3 base and all v2 emissions are present exactly when names[N] holds, v3 temporal/environmental emissions are unconditional (X spelled out, with String() of Not Defined = \"X\" from the C20 code tables); the error result is the own-level GetError(); String() is Encode()'s text; every code a field value prints as parses back to that same value and every other string parses to the unknown value (parse, over the tabulated domain of each Get function). Round trip and v2 byte identity then follow from C07/C08 (R10: vector == enc) and C09."
 	c.Trusted = []string{"go/types + go/ssa", "fmt.Sprintf(\"%v\") of a Stringer prints String() (trusted)"}
 	for _, v := range []*spec.Version{&spec.V3, &spec.V2} {
 		ls, err := e.F.Levels(v)
@@ -259,7 +259,7 @@ func c10(e *Env) {
 	e.versionTables()
 	c.Floor("canonical-order", 3)
 	c.Floor("write-ownership", 36)
-	e.keepRules("write-ownership", "names-readers", "encode-order", "encode-emission", "encode-guard", "encode-emissions", "encode-error", "encode-nil", "string-is-encode", "code-table", "canonical-order", "version-table")
+	e.keepRules("write-ownership", "names-readers", "encode-order", "encode-emission", "encode-guard", "encode-emissions", "encode-error", "encode-nil", "string-is-encode", "code-table", "parse", "canonical-order", "version-table")
 	c.Floor("encode-order", 6)
 	c.Floor("encode-emission", 36)
 	c.Floor("encode-guard", 36)
@@ -432,6 +432,46 @@ func (e *Env) singleSentinelSeen(bld *ir.Builder, v ssa.Value, depth int, seen m
 		if call, ok := x.Tuple.(*ssa.Call); ok {
 			return e.moduleErrorSource(call)
 		}
+	case *ssa.Parameter:
+		// an unexported helper that wraps the error it is handed: every call site must hand it such a value
+		fn := x.Parent()
+		if seen[x] {
+			return true
+		}
+		seen[x] = true
+		if fn == nil || fn.Object() == nil || fn.Object().Exported() {
+			return false
+		}
+		ci := e.callersOf(fn)
+		if ci == nil || ci.AsValue || len(ci.Callers) == 0 {
+			return false
+		}
+		idx := -1
+		for i, p := range fn.Params {
+			if p == x {
+				idx = i
+			}
+		}
+		sites := 0
+		for _, caller := range ci.Callers {
+			cb := e.builder(caller)
+			for _, b := range caller.Blocks {
+				for _, in := range b.Instrs {
+					call, ok := in.(ssa.CallInstruction)
+					if !ok || call.Common().StaticCallee() != fn {
+						continue
+					}
+					if _, isCall := in.(*ssa.Call); !isCall || idx < 0 || idx >= len(call.Common().Args) {
+						return false // go / defer of the helper
+					}
+					sites++
+					if !e.singleSentinelSeen(cb, call.Common().Args[idx], depth+1, seen) {
+						return false
+					}
+				}
+			}
+		}
+		return sites > 0
 	case *ssa.UnOp:
 		// the bare sentinel itself (a helper handing it to a caller that wraps it; errors.Is matches it either way)
 		if x.Op == token.MUL {
@@ -862,6 +902,10 @@ func (e *Env) boundsRules() {
 					}
 					if okLen {
 						c.Ok("bounds", cons, pos, "index below the length established by a dominating len(x) == n")
+					} else if ex, isEx := x.(*ssa.Extract); isEx && e.lengthByHelper(bld, b, ex, k) {
+						c.Ok("bounds", cons, pos, "index below the length the helper guarantees whenever it returns a nil error, and that error was tested")
+					} else if pr, isParam := x.(*ssa.Parameter); isParam && !isSlice && e.lengthByCallers(pr, k, 0) {
+						c.Ok("bounds", cons, pos, "index below the length every call site of this unexported helper has established for the argument")
 					} else {
 						c.Fail("bounds", cons, pos, "constant index not covered by a dominating length test: an input with fewer parts panics here")
 					}
@@ -883,6 +927,10 @@ func (e *Env) boundsRules() {
 					if arr, ok := at.Underlying().(*types.Array); ok && constBoundedIndex(index, arr.Len(), b) {
 						okLoop = true
 					}
+				}
+				if !okLoop && !isSlice && guardedIndex(ir.DomConds(bld, b), bld, index, x, xt) {
+					c.Ok("bounds", cons, pos, "index between 0 and the length by the dominating comparisons (lo <= i, i < len)")
+					continue
 				}
 				if okLoop {
 					c.Ok("bounds", cons, pos, "range-loop index (0 <= i < len)")
@@ -1368,4 +1416,200 @@ func wrapOptionsOK(v ssa.Value, depth int) bool {
 		return true
 	}
 	return false
+}
+
+// guardedIndex: the conditions that dominate the access bound the index from both sides: it is not
+// negative (by its type, by construction, or by a comparison with a constant) and it is below the length of
+// the indexed array or slice (a comparison with len(x), or with a constant not above an array's length).
+func guardedIndex(conds []*ir.Term, bld *ir.Builder, index, x ssa.Value, xt *ir.Term) bool {
+	it := bld.Term(index)
+	arrLen := int64(-1)
+	var at types.Type = x.Type()
+	if p, ok := at.Underlying().(*types.Pointer); ok {
+		at = p.Elem()
+	}
+	if arr, ok := at.Underlying().(*types.Array); ok {
+		arrLen = arr.Len()
+	}
+	lower := nonNegative(index, 0)
+	upper := false
+	lenKey := lenOf(xt).Key()
+	for _, g := range conds {
+		if g.Op != ir.OBin || (g.Str != "<" && g.Str != "<=") || len(g.Args) != 2 {
+			continue
+		}
+		a, b := g.Args[0], g.Args[1]
+		strict := g.Str == "<"
+		if b.Key() == it.Key() {
+			if n, ok := floatConst(a); ok && ((strict && n >= -1) || (!strict && n >= 0)) {
+				lower = true
+			}
+		}
+		if a.Key() == it.Key() {
+			if n, ok := floatConst(b); ok {
+				if arrLen >= 0 && ((strict && n <= float64(arrLen)) || (!strict && n < float64(arrLen))) {
+					upper = true
+				}
+			} else if strict && b.Key() == lenKey {
+				upper = true
+			}
+		}
+	}
+	return lower && upper
+}
+
+// nonNegative: the integer value cannot be negative: unsigned type, a length, a constant, or a loop counter
+// that starts at such a value and only grows by a positive constant.
+func nonNegative(v ssa.Value, depth int) bool {
+	if depth > 4 {
+		return false
+	}
+	if b, ok := v.Type().Underlying().(*types.Basic); ok && b.Info()&types.IsUnsigned != 0 {
+		return true
+	}
+	switch x := v.(type) {
+	case *ssa.Const:
+		return x.Value != nil && x.Value.Kind() == constant.Int && constant.Sign(x.Value) >= 0
+	case *ssa.ChangeType:
+		return nonNegative(x.X, depth+1)
+	case *ssa.Call:
+		if bi, ok := x.Call.Value.(*ssa.Builtin); ok && (bi.Name() == "len" || bi.Name() == "cap") {
+			return true
+		}
+	case *ssa.Phi:
+		for _, ed := range x.Edges {
+			if inc, ok := ed.(*ssa.BinOp); ok && inc.Op == token.ADD {
+				base := inc.X
+				if ct, ok := base.(*ssa.ChangeType); ok {
+					base = ct.X
+				}
+				if k, isC := inc.Y.(*ssa.Const); isC && base == ssa.Value(x) && k.Value != nil && constant.Sign(k.Value) > 0 {
+					continue // the counter itself plus a positive step (overflow is excluded by the upper guard the caller requires)
+				}
+			}
+			if _, isPhi := ed.(*ssa.Phi); isPhi || !nonNegative(ed, depth+1) {
+				return false
+			}
+		}
+		return true
+	}
+	return false
+}
+
+// lengthByHelper: x is result #i of a call of a module function that also returns an error; the access is
+// dominated by the test that this error is nil, and on every path of the helper that may return a nil error
+// the helper has established len(result #i) == n with n > k.
+func (e *Env) lengthByHelper(bld *ir.Builder, b *ssa.BasicBlock, ex *ssa.Extract, k int64) bool {
+	call, ok := ex.Tuple.(*ssa.Call)
+	if !ok {
+		return false
+	}
+	callee := call.Call.StaticCallee()
+	if callee == nil || callee.Pkg == nil || !load.IsLib(callee.Pkg.Pkg.Path()) || len(callee.Blocks) == 0 {
+		return false
+	}
+	res := callee.Signature.Results()
+	ei := res.Len() - 1
+	if ei < 1 || ei == ex.Index || !types.Identical(res.At(ei).Type(), errorType) {
+		return false
+	}
+	var errEx *ssa.Extract
+	for _, r := range *call.Referrers() {
+		if x, ok := r.(*ssa.Extract); ok && x.Index == ei {
+			errEx = x
+		}
+	}
+	if errEx == nil || !ir.HasCond(ir.DomConds(bld, b), ir.Bin("==", bld.Term(errEx), nilOf(errorType))) {
+		return false
+	}
+	leaves, err := ir.Leaves(callee, ir.LeafOptions{Inline: e.inlineHelpers()})
+	if err != nil || len(leaves) == 0 {
+		return false
+	}
+	for _, lf := range leaves {
+		if len(lf.Ret) != res.Len() {
+			return false
+		}
+		if nonNilErrTerm(lf, lf.Ret[ei]) {
+			continue
+		}
+		established := false
+		if n, ok := ir.ConstLen(lf.Ret[ex.Index]); ok && n > k {
+			established = true
+		}
+		lk := lenOf(lf.Ret[ex.Index]).Key()
+		for _, g := range lf.Guards {
+			if g.Op == ir.OBin && g.Str == "==" {
+				for i := 0; i < 2; i++ {
+					if n, ok := floatConst(g.Args[i]); ok && g.Args[1-i].Key() == lk && float64(k) < n {
+						established = true
+					}
+				}
+			}
+		}
+		if !established {
+			return false
+		}
+	}
+	return true
+}
+
+// lenAbove: at block b the slice value x is known to have more than k elements.
+func (e *Env) lenAbove(bld *ir.Builder, b *ssa.BasicBlock, x ssa.Value, k int64, depth int) bool {
+	xt := bld.Term(x)
+	for _, g := range ir.DomConds(bld, b) {
+		if g.Op == ir.OBin && g.Str == "==" {
+			for i := 0; i < 2; i++ {
+				if n, ok := floatConst(g.Args[i]); ok && g.Args[1-i].Key() == lenOf(xt).Key() && float64(k) < n {
+					return true
+				}
+			}
+		}
+	}
+	switch v := x.(type) {
+	case *ssa.Extract:
+		return e.lengthByHelper(bld, b, v, k)
+	case *ssa.Parameter:
+		return e.lengthByCallers(v, k, depth+1)
+	}
+	return false
+}
+
+// lengthByCallers: the parameter of an unexported function that is only called directly, and at every call
+// site the argument is known to have more than k elements.
+func (e *Env) lengthByCallers(p *ssa.Parameter, k int64, depth int) bool {
+	fn := p.Parent()
+	if depth > 3 || fn == nil || fn.Object() == nil || fn.Object().Exported() {
+		return false
+	}
+	ci := e.callersOf(fn)
+	if ci == nil || ci.AsValue || len(ci.Callers) == 0 {
+		return false
+	}
+	idx := -1
+	for i, q := range fn.Params {
+		if q == p {
+			idx = i
+		}
+	}
+	sites := 0
+	for _, caller := range ci.Callers {
+		cb := e.builder(caller)
+		for _, b := range caller.Blocks {
+			for _, in := range b.Instrs {
+				call, ok := in.(ssa.CallInstruction)
+				if !ok || call.Common().StaticCallee() != fn {
+					continue
+				}
+				if _, isCall := in.(*ssa.Call); !isCall || idx < 0 || idx >= len(call.Common().Args) {
+					return false
+				}
+				sites++
+				if !e.lenAbove(cb, b, call.Common().Args[idx], k, depth) {
+					return false
+				}
+			}
+		}
+	}
+	return sites > 0
 }
